@@ -34,6 +34,7 @@ CONSTANTS
   Isolated0 = {"c"}
   MembCids = {}
   MembTargets = {}
+  CrashNodes = {}
   Spares = {}
   MaxDepth = 100
 CONSTRAINT Bound
